@@ -298,8 +298,11 @@ func clone(output map[core.PubKey][]core.ParSignedData) map[core.PubKey][]core.P
 }
 
 // getThresholdMatching returns true and threshold number of partial signed data with identical data or false.
+// The last element of sigs must be the partial signed data that was just added: only the set matching it is
+// considered, so that a set that already reached threshold is not returned again when unrelated data
+// (e.g. a minority message root) is added afterwards.
 func getThresholdMatching(typ core.DutyType, sigs []core.ParSignedData, threshold int) ([]core.ParSignedData, bool, error) {
-	if len(sigs) < threshold {
+	if len(sigs) == 0 || len(sigs) < threshold {
 		return nil, false, nil
 	}
 
@@ -308,7 +311,12 @@ func getThresholdMatching(typ core.DutyType, sigs []core.ParSignedData, threshol
 		return sigs, len(sigs) == threshold, nil
 	}
 
-	sigsByMsgRoot := make(map[[32]byte][]core.ParSignedData) // map[Root][]ParSignedData
+	addedRoot, err := sigs[len(sigs)-1].MessageRoot()
+	if err != nil {
+		return nil, false, err
+	}
+
+	var set []core.ParSignedData
 
 	for _, sig := range sigs {
 		root, err := sig.MessageRoot()
@@ -316,14 +324,14 @@ func getThresholdMatching(typ core.DutyType, sigs []core.ParSignedData, threshol
 			return nil, false, err
 		}
 
-		sigsByMsgRoot[root] = append(sigsByMsgRoot[root], sig)
+		if root == addedRoot {
+			set = append(set, sig)
+		}
 	}
 
 	// Return true if we have "threshold" number of signatures.
-	for _, set := range sigsByMsgRoot {
-		if len(set) == threshold {
-			return set, true, nil
-		}
+	if len(set) == threshold {
+		return set, true, nil
 	}
 
 	return nil, false, nil
